@@ -31,6 +31,29 @@ def _RunOne(case):
   return res
 
 
+def _AnnotationsOf(lp, name):
+  """(order, limit) of a predicate as the compiled program's annotations hold
+  them, in the IR's shape."""
+  order, limit = [], -1
+  try:
+    items = lp.annotations.OrderBy(name) or []
+    lim = lp.annotations.LimitOf(name)
+  except BaseException:  # pylint: disable=broad-except
+    return order, limit
+  for it in items:
+    it = str(it)
+    if it.upper() == 'DESC':
+      if order:
+        order[-1]['desc'] = True
+      continue
+    parts = it.split()
+    order.append({'f': parts[0],
+                  'desc': len(parts) > 1 and parts[1].lower() == 'desc'})
+  if lim is not None:
+    limit = int(lim)
+  return order, limit
+
+
 def _Stages(case, text):
   """pi(rules0) after parsing and pi(rules2) after recursion unfolding and
   functor expansion, restricted to what the queried predicates reach."""
@@ -43,9 +66,12 @@ def _Stages(case, text):
   except BaseException as e:  # pylint: disable=broad-except
     return [{'name': 'parsed', 'skipped': 'parse: %s' % type(e).__name__}]
   recursive = bool(case['prog'].get('rec'))
-  for name, get in (('parsed', lambda: rules0),
-                    ('made', lambda: [r for _, r in
-                                      m['universe'].LogicaProgram(rules0).rules])):
+  made = {}
+
+  def Made():
+    made['lp'] = m['universe'].LogicaProgram(rules0)
+    return [r for _, r in made['lp'].rules]
+  for name, get in (('parsed', lambda: rules0), ('made', Made)):
     if case.get('workflow') and name == 'made':
       # an iterative plan is a loop run by the workflow executor: its rules
       # alone (the ignition steps) do not denote the result
@@ -64,6 +90,10 @@ def _Stages(case, text):
         if p['name'] in src:
           p['order'] = src[p['name']].get('order', [])
           p['limit'] = src[p['name']].get('limit', -1)
+        elif name == 'made':
+          # a predicate the expansion created (a clone): its annotations are
+          # part of the compiler's state after this stage
+          p['order'], p['limit'] = _AnnotationsOf(made['lp'], p['name'])
       have = {p['name'] for p in prog['preds']}
       if not set(case['query']) <= have:
         out.append({'name': name, 'skipped': 'predicate missing'})
